@@ -3,7 +3,7 @@
 # 1. move the seed worktree to /repo's HEAD  2. confirm the seed (tools/seed_verify.sh)
 # 3. run ./check <ID> against the worktree with the patch applied  4. file it under seeded/<ID>-<v>/
 ID=$1; V=$2; DEMODIR=$3; shift 3
-WT=/tmp/seed-$ID
+WT=${SEEDWT:-/tmp/seed-$ID}
 HEAD=$(git -C /repo rev-parse HEAD)
 cd $WT || exit 2
 git checkout -q -- . ; git clean -qfd -e _seed >/dev/null; git checkout -q --detach $HEAD || exit 2
@@ -20,7 +20,7 @@ mkdir -p $D; cp $WT/_seed/$V/patch.diff $D/patch.diff; cp $WT/_seed/$V/demo_test
 python3 - "$ID" "$V" "$DEMODIR" "$CONF" "$rc" "$((t1-t0))" "$HEAD" "$@" <<'PY'
 import json,sys,re
 ID,V,demodir,conf,rc,wall,head=sys.argv[1:8]; pkgs=sys.argv[8:]
-readme=open(f'/tmp/seed-{ID}/_seed/{V}/README.md').read() if True else ''
+readme=open(__import__('os').environ.get('SEEDWT',f'/tmp/seed-{ID}')+f'/_seed/{V}/README.md').read() if True else ''
 log=open(f'/tmp/seedcheck.{ID}.{V}.log').read()
 viol=[l for l in log.splitlines() if l.startswith('VIOLATION')]
 meta={"seed_id":f"{ID}-{V.lower()}","property":ID,"base_commit":head,
